@@ -180,6 +180,16 @@ fn base_responder(family: Family) -> BoxedStrategy<Maker> {
                     // keep the exchange small: hostile cases do not need 255 players
                     st.players.truncate(12);
                     st.rules.truncate(12);
+                    // Battalion 1944: the wrapper post-processes bat_* rules; give it some, with values it does and does not expect
+                    if engine.expected_ids().map(|x| x.0) == Some(489_940) {
+                        let d = crate::runner::digest(st.info.name.as_bytes());
+                        let vals = ["", "Y", "N", "7", "255", "256", "-1", "x", " "];
+                        for (i, key) in ["bat_max_players_i", "bat_player_count_s", "bat_has_password_s", "bat_name_s", "bat_gamemode_s", "bat_map_s"].iter().enumerate() {
+                            if (d >> i) & 1 == 1 {
+                                st.rules.push((key.to_string(), vals[((d >> (8 + 4 * i)) % 9) as usize].to_string()));
+                            }
+                        }
+                    }
                     // the compressor co-process is not needed for the hostile corpus
                     for s in [&mut st.t_info, &mut st.t_players, &mut st.t_rules] {
                         if let crate::models::valve::Framing::Split { compressed, .. } = &mut s.framing {
@@ -653,6 +663,8 @@ enum HttpMut {
     Insert(prop::sample::Index, Vec<u8>),
     /// replace the n-th JSON scalar of the body by a token
     Token(prop::sample::Index, &'static str),
+    /// replace EVERY number of the body by one large value that still fits its type (count fields that are only dangerous together)
+    AllNumbers(&'static str),
     /// replace the value of a header / add one
     Header(&'static str, String),
     Status(String),
@@ -685,6 +697,8 @@ fn http_mutation() -> impl Strategy<Value = HttpMut> {
         3 => (any::<prop::sample::Index>(), bytes.clone()).prop_map(|(i, b)| HttpMut::Overwrite(i, b)),
         2 => (any::<prop::sample::Index>(), bytes).prop_map(|(i, b)| HttpMut::Insert(i, b)),
         6 => (any::<prop::sample::Index>(), prop::sample::select(JSON_TOKENS.to_vec())).prop_map(|(i, t)| HttpMut::Token(i, t)),
+        1 => (any::<prop::sample::Index>(), prop::sample::select(vec!["4294967295", "2147483647", "50000000", "3000000"])).prop_map(|(i, t)| HttpMut::Token(i, t)),
+        2 => prop::sample::select(vec!["4294967295", "2147483647", "50000000", "3000000", "65535"]).prop_map(HttpMut::AllNumbers),
         3 => clen.prop_map(|v| HttpMut::Header("Content-Length", v)),
         1 => prop_oneof![Just("chunked".to_string()), Just("gzip".to_string()), Just("chunked, chunked".to_string()), Just("identity".to_string())].prop_map(|v| HttpMut::Header("Transfer-Encoding", v)),
         1 => prop_oneof![Just("gzip".to_string()), Just("br".to_string()), Just("deflate".to_string())].prop_map(|v| HttpMut::Header("Content-Encoding", v)),
@@ -785,6 +799,14 @@ pub fn eco_hcase() -> BoxedStrategy<HCase> {
                     if !sc.is_empty() {
                         let (a, b) = sc[i.index(sc.len())];
                         body.splice(a .. b, t.bytes());
+                    }
+                }
+                HttpMut::AllNumbers(t) => {
+                    // from the back, so that earlier positions stay valid
+                    for (a, b) in json_scalars(&body).into_iter().rev() {
+                        if body[a].is_ascii_digit() || body[a] == b'-' {
+                            body.splice(a .. b, t.bytes());
+                        }
                     }
                 }
                 HttpMut::Header(k, v) => {
